@@ -315,6 +315,32 @@ func suiteC12(s *Suite, rng *Rng, tier string) {
 			}
 			attrsOf = cred.Attributes
 		}
+		// a cheating prover: an honest disclosure proof plus a range proof computed for a value of the prover's choosing with its
+		// own randomizer, hashed into the challenge like an honest one (internally consistent, but not about the signed attribute);
+		// both the in-memory object (whose range proof carries its own m-response) and its wire copy
+		{
+			fake := new(gbig.Int).Add(m, bi(int64(1000+rng.Intn(1000))))
+			stF, _ := rangeproof.NewStatement(rangeproof.GreaterOrEqual, new(gbig.Int).Add(m, bi(int64(1+rng.Intn(900)))))
+			inner, err := cred.CreateDisclosureProofBuilder([]int{}, nil, false)
+			if err != nil {
+				panic(err)
+			}
+			ub := &untiedRangeBuilder{inner: inner, idx: idx, stmt: stF, fake: fake, mr: rng.Bits(int(pk.Params.LmCommit))}
+			plF, err := gabi.ProofBuilderList{ub}.BuildProofList(ctx, nonce, false)
+			if err == nil && ub.err == nil {
+				forged := plF[0].(*gabi.ProofD)
+				run("untied-range-proof:in-memory", forged)
+				wire := cloneProofD(forged)
+				for _, rps := range wire.RangeProofs {
+					for _, rp := range rps {
+						rp.MResponse = nil
+					}
+				}
+				run("untied-range-proof:wire", wire)
+			} else {
+				s.Count("untied-range-proof:not-built")
+			}
+		}
 		// transplant from another credential
 		{
 			st3, _ := rangeproof.NewStatement(rangeproof.GreaterOrEqual, bi(3))
@@ -327,6 +353,48 @@ func suiteC12(s *Suite, rng *Rng, tier string) {
 	s.Notes["rule"] = "statement logic: random descriptors (sign in {-2..2}, factor in {0,1,2,3,4,8,2^62,2^62+1,2^63,2^64-1}, K in [-40,40], 3/4 squares) x queried " +
 		"statements, each checked against integer semantics for every m in [0,40]; end to end: false statements at m = bound -+ 1, every descriptor/response " +
 		"alteration of an accepted proof, transplants between indices and credentials, disclosed / non-existent / negative indices; distinct by input"
+}
+
+// untiedRangeBuilder wraps an honest disclosure proof builder and adds a range proof about a value of its own
+type untiedRangeBuilder struct {
+	inner  *gabi.DisclosureProofBuilder
+	idx    int
+	stmt   *rangeproof.Statement
+	fake   *gbig.Int
+	mr     *gbig.Int
+	ps     *rangeproof.ProofStructure
+	commit *rangeproof.ProofCommit
+	err    error
+}
+
+func (u *untiedRangeBuilder) Commit(randomizers map[string]*gbig.Int) ([]*gbig.Int, error) {
+	l, err := u.inner.Commit(randomizers)
+	if err != nil {
+		return nil, err
+	}
+	u.ps, u.err = u.stmt.ProofStructure(u.idx)
+	if u.err != nil {
+		return l, nil
+	}
+	var extra []*gbig.Int
+	extra, u.commit, u.err = u.ps.CommitmentsFromSecrets(u.inner.PublicKey(), u.fake, u.mr)
+	if u.err != nil {
+		return l, nil
+	}
+	return append(l, extra...), nil
+}
+
+func (u *untiedRangeBuilder) CreateProof(challenge *gbig.Int) gabi.Proof {
+	p := u.inner.CreateProof(challenge).(*gabi.ProofD)
+	if u.err == nil {
+		p.RangeProofs = map[int][]*rangeproof.Proof{u.idx: {u.ps.BuildProof(u.commit, challenge)}}
+	}
+	return p
+}
+
+func (u *untiedRangeBuilder) PublicKey() *gabikeys.PublicKey { return u.inner.PublicKey() }
+func (u *untiedRangeBuilder) SetProofPCommitment(c *gabi.ProofPCommitment) {
+	u.inner.SetProofPCommitment(c)
 }
 
 // ---------------------------------------------------------------------------------------
